@@ -437,6 +437,9 @@ func NextBuiltin(vm *Thread, val value.Value) (result, err value.Value) {
 		return LeftOpenRangeIteratorNext(vm, v)
 	case *value.RightOpenRangeIterator:
 		return RightOpenRangeIteratorNext(vm, v)
+	case value.ReadChannel:
+		// waits for the next element, has to wake up when the thread is aborted
+		return v.NextValueCtx(vm.Aborter.Context())
 	case value.NativeIterator:
 		return v.NextValue()
 	default:
